@@ -22,14 +22,17 @@ TRUSTED = c08.TRUSTED + [
     'the data source is represented by its outcomes (per index: the element or one raise); that SequenceDataSource / '
     '_RangeIterator deliver exactly these is the subject of C09 (Lemmas/RangeIter.lean); a Python generator source ends '
     'at its first raise',
-    'helper threads (num_threads=2) are observed (no multiplex_pool thread alive afterwards), not modelled (C13)',
+    'helper threads are observed (no multiplex_pool thread alive afterwards); of the threaded runner only the source lock wrapper '
+    '_ThreadSafeIterator is modelled (Iter.tsNext / tsServe: call-atomic schedules); queues and thread termination are C04 / C13',
 ]
 ASSUMPTIONS = c08.ASSUMPTIONS + ['skippable = iter_utils._IGNORE_ERROR_TYPES, read from the source on every run']
 RULE = ('failure sets enumerated: every subset of failing positions for streams of 1..4 (quick) / 1..6 (thorough) records x the '
         'failing operator kind (apply, assign, filter, sink) x its neighbours in the chain x ignore_error on/off x error kind '
         '(ValueError, TypeError skippable; KeyError not); failing data sources (every subset, source skipping on/off, generator '
         'sources); batched apply / assign with failing batches; random C08 chains with one fail_on operator; num_threads=2 '
-        '(multisets).  non-trivial = at least one element fails and at least one survives')
+        '(multisets); resumable failing SOURCES that do not skip by themselves (SequenceDataSource: shardable; a user iterator '
+        'class: one un-sharded source behind the _ThreadSafeIterator wrapper) x every non-empty failure set x num_threads 0/1/2 '
+        '(num_threads=1: compared in order).  non-trivial = at least one element fails and at least one survives')
 
 N, P = G.N, G.P
 
@@ -116,6 +119,32 @@ def source_cases(ctx):
             yield c08.mk_case(copy.deepcopy(ops), recs(n), ignore=False, kind='gen', fail=fail[:1], tag='source:gen')
 
 
+def threaded_source_cases(ctx):
+  """Failing SOURCES (not failing functions) that can be read further after a failing read, under num_threads 0 / 1 / 2:
+  the library's shardable `SequenceDataSource` (num_threads=1: one shard behind the `_ThreadSafeIterator` lock wrapper;
+  num_threads=2: two shards) and an un-shardable user iterator class (always ONE source shared by the worker threads
+  through the wrapper); every non-empty set of failing positions of streams of 2..4 (quick) records; the source does
+  not skip by itself, the runner does (or does not: the first error surfaces); the first operator is an `apply` / `select`
+  (an `assign` / `filter` / `sink` in that position is the input class of finding F-C12-passed-on)."""
+  nmax = 4 if ctx.quick else 6
+  i = 0
+  firsts = {'apply': AFTER['apply'], 'select': [{'op': 'select', 'in': {'many': [N('a'), N('b')]}}],
+            'apply+assign': AFTER['apply'] + [{'op': 'assign', 'fn': {'f': 'neg'}, 'in': {'one': N('h')}, 'keys': {'one': N('k')}}],
+            'assign': AFTER['assign']}
+  for kind in ('seq', 'iter'):
+    for t in (0, 1, 2):
+      for first, ops in firsts.items():
+        for n in range(2, nmax + 1):
+          for s in subsets(n):
+            if not s or (first in ('apply+assign', 'assign') and (len(s) + n) % 3):
+              continue
+            i += 1
+            err = 'ValueError' if i % 5 else ('TypeError' if i % 10 else 'KeyError')
+            ignore = i % 6 != 0
+            yield c08.mk_case(copy.deepcopy(ops), recs(n), ignore=ignore, threads=t, kind=kind,
+                              fail=[(j, err) for j in s], src_ignore=False, tag=f'tsource:{kind}:t{t}')
+
+
 def batched_cases(ctx):
   nmax = 4 if ctx.quick else 6
   for n in range(1, nmax + 2):
@@ -153,6 +182,7 @@ def gen_cases(ctx):
   yield from counted(systematic(ctx), 'systematic')
   yield from counted(source_cases(ctx), 'source')
   yield from counted(batched_cases(ctx), 'batched')
+  yield from counted(threaded_source_cases(ctx), 'tsource')
 
   def rand(n):
     for _ in range(n):
@@ -186,7 +216,7 @@ def extra(ctx):
     ctx.extra_disagreements.append(('skippable-types', None, dict(
         why=f'iter_utils._IGNORE_ERROR_TYPES is {got}, the model (Iter.Err.ignorable) assumes {L.SKIPPABLE}')))
   need = ['op:apply', 'op:assign', 'op:filter', 'op:sink', 'source:apply', 'source:assign', 'batched:apply', 'batched:assign',
-          'random', 'threads']
+          'random', 'threads'] + [f'tsource:{k}:t{t}' for k in ('seq', 'iter') for t in (0, 1, 2)]
   missing = [c for c in need if c not in ctx.hist.get('class', {})]
   if missing:
     raise InfraError(f'generator missed promised classes: {missing}')
